@@ -181,6 +181,28 @@ func (r *Resolver) AutoTA() {
 		return
 	}
 
+	// Revocations accepted by an earlier run whose tombstone write
+	// failed exist only in memory; without them the on-disk state
+	// (still Valid) would re-admit the revoked key below.
+	r.RLock()
+	unpersisted := len(r.unpersistedTombstones)
+	for fp, tb := range r.unpersistedTombstones {
+		if _, exists := tombstones[fp]; !exists {
+			tombstones[fp] = tb
+		}
+	}
+	r.RUnlock()
+	// Retry the failed write now: the refresh below may return early
+	// (an empty candidate set authenticates nothing) and would never
+	// reach the persistence tail.
+	if unpersisted > 0 {
+		if werr := writeTombstones(tombstonePath, tombstones); werr == nil {
+			r.Lock()
+			r.unpersistedTombstones = nil
+			r.Unlock()
+		}
+	}
+
 	// Copy legacy Revoked/Removed entries into the material-keyed
 	// tombstone store so tag collisions with a future legitimate KSK
 	// can't suppress that future key. Keep the markers in kskCurrent
@@ -535,6 +557,13 @@ func (r *Resolver) AutoTA() {
 	// excludes Revoked from the live trust set, so the key stays
 	// fail-closed across retries.
 	tombErr := writeTombstones(tombstonePath, tombstones)
+	r.Lock()
+	if tombErr != nil {
+		r.unpersistedTombstones = tombstones
+	} else {
+		r.unpersistedTombstones = nil
+	}
+	r.Unlock()
 	if tombErr != nil {
 		zlog.Error("Refresh trust anchor tombstones failed — revocation kept in state as StateRevoked for next-run retry", "error", tombErr.Error())
 	} else {
